@@ -99,9 +99,17 @@ def run(tier, seed, replay=None):
         # observed by a listener): the union of the enumerations and the logged probe estimate
         import random
         rnd = random.Random(seed * 7919 + 16)
+        strata = [32, 31, 30, 29, 28, 27, 26] + ([25, 24] if thorough else [])
+        drawn = [0]
         def lo_net():
+            # prefixes are dealt round-robin so that every one occurs in every run; the base address is
+            # random, every second one has all host bits set (the "last address" spelling of the network)
+            p = strata[drawn[0] % len(strata)]
             a = (127 << 24) | (rnd.randrange(1, 255) << 16) | (rnd.randrange(0, 256) << 8) | rnd.randrange(0, 256)
-            return a, rnd.choice([32, 31, 30, 30, 29, 29, 28, 27, 26] + ([25, 24] if thorough else []))
+            if drawn[0] % 2 == 0:
+                a |= (1 << (32 - p)) - 1
+            drawn[0] += 1
+            return a, p
         for i in range(14 if thorough else 6):
             k = rnd.choice([1, 2, 2, 3, 3, 4])
             nets = [lo_net() for _ in range(k)]
@@ -115,6 +123,13 @@ def run(tier, seed, replay=None):
             limit = rnd.choice([1, 3, 16, 64, 5000])
             cases.append(("disc %d %s" % (limit, ",".join(words)),
                           ["all " + " ".join("%d %d" % n for n in nets)], "disc", len(nets), limit))
+        # cancelling a whole autoDiscover run (several large subnets, refused probes, cancel after a
+        # while): the call has to return
+        for nets, ms in ([("127.0.0.0/10,127.64.0.0/10", 150), ("127.128.0.0/12,127.160.0.0/12,127.192.0.0/12", 60),
+                          ("127.7.0.0/16", 40), ("127.8.0.0/14,127.12.0.1/32,127.16.0.0/14", 0)]
+                         + ([("127.0.0.0/9,127.128.0.0/9", 700), ("127.32.0.0/11,127.64.0.0/11,127.96.0.0/11,127.128.0.0/11", 300)] if thorough else [])):
+            for limit in ((1, 50) if thorough else (8,)):
+                cases.append(("disccancel %d %d %s" % (limit, ms, nets), [], "disccancel", 0, 0))
         if thorough:
             for a in bs[:1]:
                 for p in (8,):
@@ -148,7 +163,7 @@ def run(tier, seed, replay=None):
         elif kind == "head":
             vals = [x.strip() for x in o if x.strip() != "none"]
             expect = "true" + "".join(" " + v for v in vals)
-        elif kind == "cancel":
+        elif kind in ("cancel", "disccancel"):
             expect = "true"
         if len(samples) < 6 and kind in ("gen", "head") and p in (29, 30, 13, 31):
             samples.append(dict(request=req, go=g[:200], model=expect[:200]))
@@ -157,7 +172,10 @@ def run(tier, seed, replay=None):
         # correspondence broken at this input: evaluate the property on the implementation's behaviour
         replay_d = dict(kind="correspondence", correspondence="C16/ipGenerator-vs-ip_gen", cases=[list(c)],
                         observed=g[:2000], expected=expect[:2000])
-        if kind == "cancel":
+        if kind == "disccancel":
+            res.violation("cancel-blocks:autodiscover", "autoDiscover over %s (async limit %s) had not returned 5 s after its context was cancelled (%s ms into the run): %s"
+                          % (req.split()[3], req.split()[1], req.split()[2], g[:200]), replay_d)
+        elif kind == "cancel":
             res.violation("cancel-blocks:/%d" % p if p >= 31 else "cancel-blocks:loop",
                           "ipGenerator for %s/%d did not return within 3s after cancellation with no consumer" % (ip_s(a), p), replay_d)
         elif kind == "disc":
